@@ -18,6 +18,8 @@ def _outcome(ex, viol, step, nontrivial, extra=None, trace_digest=None):
 
 
 def case_from_json(j):
+    if "chain" in j or "cyclic" in j:
+        return j
     return {"cfg": j["cfg"], "spec": j["spec"], "ops": [tuplify(o) for o in j["ops"]],
             **{k: tuplify(v) for k, v in j.items() if k not in ("cfg", "spec", "ops")}}
 
@@ -42,10 +44,16 @@ class C01:
 
     @staticmethod
     def generate(ctx, run):
+        if run % 40 == 7:
+            return gen_chain_case(ctx, run, "C01")      # 2.5 % of the runs: chains of 1000+ dependants
         return gen_history_case(ctx, run, "C01")
 
     @staticmethod
     def execute(ctx, case, prop="C01", check_trace=False, check_contents=True):
+        if "chain" in case:
+            return exec_chain(ctx, case, prop)
+        if "cyclic" in case:
+            return exec_cyclic(ctx, case, prop)
         spec = Spec.from_json(case["spec"])
         cfg = case["cfg"]
         ex = Exec(ctx.xd, spec, cfg["g_restricted"], cfg["salt"])
@@ -94,6 +102,10 @@ class C02(C01):
 
     @staticmethod
     def generate(ctx, run):
+        if run % 10 == 3:
+            return gen_cyclic_case(ctx, run, "C02")     # 10 % of the runs: mutually dependent function tasks
+        if run % 80 == 9:
+            return gen_chain_case(ctx, run, "C02")
         return gen_history_case(ctx, run, "C02")
 
     @staticmethod
@@ -1368,3 +1380,168 @@ class C20:
 
 
 DRIVERS["C20"] = C20
+
+
+# ---------------------------------------------------------------------------
+# dedicated scenarios: deep chains (C01) and cyclic public graphs (C02 termination / at-most-once clause)
+# ---------------------------------------------------------------------------
+import sys as _sys
+
+
+def gen_chain_case(ctx, run, prop):
+    r = rng_for(ctx.seed, prop, run, "chain")
+    n = r.randint(1050, 2200) if ctx.tier == "quick" else r.randint(1050, 5000)
+    salt = "".join(r.choice("abcdefghijklmnopqrstuvwxyz0123456789") for _ in range(3))
+    order = list(range(1, n + 1))
+    how = r.choice(["shuffled", "reversed", "forward", "shuffled"])
+    if how == "shuffled":
+        r.shuffle(order)
+    elif how == "reversed":
+        order.reverse()
+    side = sorted(r.sample(range(3, n), min(20, n // 60)))       # a few diamond joins along the chain
+    return {"chain": {"n": n, "salt": salt, "order": order, "how": how, "side": side,
+                      "reclimit": r.choice([250, 1000, 1000, 3000]), "x": r.choice([2.0, -3.5, 10.0])}}
+
+
+def exec_chain(ctx, case, prop):
+    ch = case["chain"]
+    xd = ctx.xd
+    n, salt = ch["n"], ch["salt"]
+    from ..containers import SimDict
+    mgr = xd.Manager()
+    d = SimDict(("v%d%s" % (i, salt), 0.0) for i in range(n + 1))
+    for j in ch["side"]:
+        dict.__setitem__(d, "w%d%s" % (j, salt), 0.0)
+    r = mgr.ref(d, "r" + salt)
+    key = lambda i: "v%d%s" % (i, salt)
+    old = _sys.getrecursionlimit()
+    stats = {"chain_tasks": n + len(ch["side"]), "chain_runs": 1}
+    viol = None
+    try:
+        _sys.setrecursionlimit(max(ch["reclimit"], 200))
+        try:
+            for i in ch["order"]:
+                r[key(i)] = r[key(i - 1)] + 1.0
+                if i in ch["side"]:
+                    r["w%d%s" % (i, salt)] = r[key(i)] - r[key(i - 2)]
+            r[key(0)] = ch["x"]
+        except SimStall:
+            raise
+        except BaseException as e:      # noqa
+            if isinstance(e, (KeyboardInterrupt, SystemExit)):
+                raise
+            viol = Violation(prop + ".chain.exception", "chain of %d dependants (%s definitions, recursion limit %d): %s: %s"
+                             % (n, ch["how"], ch["reclimit"], type(e).__name__, str(e)[:200]), exc=type(e).__name__)
+    finally:
+        _sys.setrecursionlimit(old)
+    if viol is None:
+        for i in range(n + 1):
+            v = dict.__getitem__(d, key(i))
+            if v != ch["x"] + i:
+                viol = Violation(prop + ".chain.content", "chain of %d dependants (%s definitions): %s holds %r, expected %r"
+                                 % (n, ch["how"], key(i), v, ch["x"] + i))
+                break
+        if viol is None:
+            for j in ch["side"]:
+                v = dict.__getitem__(d, "w%d%s" % (j, salt))
+                if v != 2.0:
+                    viol = Violation(prop + ".chain.content", "chain of %d dependants: join w%d holds %r, expected 2.0" % (n, j, v))
+                    break
+    return {"violation": (dict(viol.to_json(), step=None) if viol else None), "nontrivial": True, "stats": stats, "extra": {}, "trace_digest": "chain"}
+
+
+def gen_cyclic_case(ctx, run, prop):
+    r = rng_for(ctx.seed, prop, run, "cyclic")
+    salt = "".join(r.choice("abcdefghijklmnopqrstuvwxyz0123456789") for _ in range(3))
+    nl = r.randint(4, 8)
+    nt = r.randint(2, 5)
+    tasks = []
+    for t in range(nt):
+        tg = r.sample(range(nl), r.randint(1, 2))
+        dp = [x for x in r.sample(range(nl), r.randint(1, 3)) if x not in tg] or [(tg[0] + 1) % nl]
+        tasks.append((dp, tg))
+    # close at least one cycle: task 0 reads a target of the last task and vice versa
+    tasks[0] = (sorted(set(tasks[0][0] + [tasks[-1][1][0]]) - set(tasks[0][1])) or [tasks[-1][1][0]], tasks[0][1])
+    tasks[-1] = (sorted(set(tasks[-1][0] + [tasks[0][1][0]]) - set(tasks[-1][1])) or [tasks[0][1][0]], tasks[-1][1])
+    exprs = [(r.randrange(nl), r.sample(range(nl), 2)) for _ in range(r.randint(0, 3))]
+    assigns = [(r.randrange(nl), float(r.randint(-5, 5))) for _ in range(r.randint(2, 6))]
+    order = list(range(nt))
+    r.shuffle(order)
+    return {"cyclic": {"salt": salt, "nl": nl, "tasks": tasks, "exprs": exprs, "assigns": assigns, "order": order}}
+
+
+def exec_cyclic(ctx, case, prop):
+    cy = case["cyclic"]
+    xd = ctx.xd
+    from ..containers import SimDict
+    from .. import containers as Cmod
+    salt = cy["salt"]
+    mgr = xd.Manager()
+    names = ["c%d%s" % (i, salt) for i in range(cy["nl"])]
+    d = SimDict((k, 1.0) for k in names)
+    r = mgr.ref(d, "r" + salt)
+    decl = {}
+
+    def mk_action(tid, dp, tg):
+        def act():
+            Cmod._event("act", 0, tid)
+            s = 0.0
+            for x in dp:
+                s += d[names[x]]
+            for x in tg:
+                d[names[x]] = s * 0.5
+        return act
+
+    for t in cy["order"]:
+        dp, tg = cy["tasks"][t]
+        tid = "f%d%s" % (t, salt)
+        mgr.register(xd.tasks.FunctionTask(tid, mk_action(tid, dp, tg), set(r[names[x]] for x in tg), set(r[names[x]] for x in dp)))
+        decl[tid] = (set(dp), set(tg))
+    eids = {}
+    for tgt, (a, b) in cy["exprs"]:
+        if any(tgt in v[1] for v in decl.values()) or tgt in eids or tgt in (a, b):
+            continue
+        try:
+            mgr.register(xd.tasks.ExprTask(r[names[tgt]], r[names[a]] + r[names[b]]))
+        except Exception:
+            continue
+        eids[tgt] = "e%d" % tgt
+        decl["e%d" % tgt] = ({a, b}, {tgt})
+    stats = {"cyclic_graphs": 1}
+    viol = None
+    for k, (loc, val) in enumerate(cy["assigns"]):
+        if loc in eids:
+            continue
+        # trigger set by the statement: closure under "writes something the other reads"
+        trig = set(t for t, (dp, tg) in decl.items() if loc in dp)
+        work = list(trig)
+        while work:
+            t = work.pop()
+            for u, (dp, tg) in decl.items():
+                if u not in trig and decl[t][1] & dp:
+                    trig.add(u)
+                    work.append(u)
+        tr, exc = run_traced(lambda: r.__setitem__(names[loc], val))
+        if isinstance(exc, SimStall):
+            raise exc
+        where = "cyclic graph, assignment %d to %s" % (k, names[loc])
+        if exc is not None:
+            viol = Violation(prop + ".cyclic.exception", "%s raised %s: %s" % (where, type(exc).__name__, exc))
+            break
+        ran = [ev[2] for ev in tr if ev[0] == "act"]
+        ewrites = [ev[2] for ev in tr[1:] if ev[0] == "w" and any(ev[2] == names[t] for t in eids)]
+        for tid in set(ran):
+            if ran.count(tid) > 1:
+                viol = Violation(prop + ".cyclic.twice", "%s: task %s ran %d times" % (where, tid, ran.count(tid)))
+            elif tid not in trig:
+                viol = Violation(prop + ".cyclic.outside", "%s: task %s ran but does not depend on the assigned location" % (where, tid))
+        for nm in set(ewrites):
+            tgt = names.index(nm)
+            # an expression target may also be written by a function task; count the expression task via reads? keep to membership
+            if "e%d" % tgt not in trig and not any(tgt in decl[t][1] for t in ran if t in decl):
+                viol = Violation(prop + ".cyclic.outside", "%s: expression task of %s ran but does not depend on the assigned location" % (where, nm))
+        stats["cyclic_updates"] = stats.get("cyclic_updates", 0) + 1
+        stats["cyclic_tasks_run"] = stats.get("cyclic_tasks_run", 0) + len(ran)
+        if viol:
+            break
+    return {"violation": (dict(viol.to_json(), step=None) if viol else None), "nontrivial": True, "stats": stats, "extra": {}, "trace_digest": "cyclic"}
